@@ -10,6 +10,9 @@ import PocketModel.Ledger.BaseApp
 * `B act kind point desc => code changed ante msg diff` — one off-chain call of the busy twin:
   executable spec = the working state must not change (PROPFAIL `<kind>-mutates-state`); for
   simulations the marks are compared with the model under the probed plumbing (DIFF).
+* latest-height balance probes (`ans=`/`com=`/`wrk=`): the answer of a custom query at the latest height
+  must be the last committed version's (`BaseApp.queryCustom` reads `loadVersion`), also mid-block —
+  PROPFAIL `customquery-reads-working-state`.
 * `B blk h => …` — must equal A's line for the same height (PROPFAIL `<kind>-mutates-state`).
 -/
 open BaseApp
@@ -97,6 +100,9 @@ def step (st : St) (pre post : List String) : St × Verdict :=
       match modelV with
       | .ok =>
         if changed then (st, .propfail (sigOf kind) detail)
+        else if (field post "ans").isSome && (field post "com") ≠ some "?" && (field post "ans") ≠ (field post "com") then
+          -- model: `queryCustom` at the latest height reads `versions.getLast?`, the last COMMITTED version
+          (st, .propfail "customquery-reads-working-state" s!"{" ".intercalate (pre.drop 2)}: answer {(field post "ans").getD "?"} but the last committed version holds {(field post "com").getD "?"} (working state: {(field post "wrk").getD "?"}): the query context aliases the working trees of the root multistore")
         else if (field post "gpre") ≠ (field post "gpost") then
           -- codec.UpgradeHeight / OldUpgradeHeight / UpgradeFeatureMap gate consensus rules: part of `G`, and read by block execution
           if st.globalsReported then (st, .ok)
